@@ -1,1 +1,454 @@
+(* Proofs about the model of generate_lindbladian (Sym.v). *)
+From Coq Require Import String List Bool QArith Qcanon Ring Lia.
 From PTN Require Import Lindblad.Sym.
+Import ListNotations.
+Local Close Scope Q_scope.
+
+(* ============================================================================================ *)
+(* Dictionaries                                                                                  *)
+(* ============================================================================================ *)
+Section DictLemmas.
+  Context {V : Type}.
+  Implicit Types (d : dict V) (k : string) (v : V).
+
+  Lemma dget_In : forall d k v, dget k d = Some v -> In (k, v) d.
+  Proof.
+    induction d as [|[k' v'] r IH]; simpl; intros k v H; [discriminate|].
+    destruct (String.eqb k k') eqn:E.
+    - apply String.eqb_eq in E. inversion H; subst. now left.
+    - right. now apply IH.
+  Qed.
+
+  Lemma In_dget_some : forall d k v, In (k, v) d -> exists v', dget k d = Some v'.
+  Proof.
+    induction d as [|[k' v'] r IH]; simpl; intros k v H; [contradiction|].
+    destruct (String.eqb k k') eqn:E; [eauto|].
+    destruct H as [H|H]; [inversion H; subst; rewrite String.eqb_refl in E; discriminate|].
+    eapply IH; eauto.
+  Qed.
+
+  Lemma dget_dset_same : forall d k v, dget k (dset k v d) = Some v.
+  Proof.
+    induction d as [|[k' v'] r IH]; simpl; intros k v.
+    - now rewrite String.eqb_refl.
+    - destruct (String.eqb k k') eqn:E; simpl; rewrite E; auto.
+  Qed.
+
+  Lemma dget_dset_other : forall d k k' v, k <> k' -> dget k (dset k' v d) = dget k d.
+  Proof.
+    induction d as [|[k0 v0] r IH]; simpl; intros k k' v Hn.
+    - destruct (String.eqb k k') eqn:E; [apply String.eqb_eq in E; contradiction|reflexivity].
+    - destruct (String.eqb k' k0) eqn:E; simpl.
+      + apply String.eqb_eq in E; subst k0.
+        destruct (String.eqb k k') eqn:E2; [apply String.eqb_eq in E2; contradiction|reflexivity].
+      + destruct (String.eqb k k0); auto.
+  Qed.
+
+  Lemma dget_dset : forall d k k' v v', dget k (dset k' v' d) = Some v -> (k = k' /\ v = v') \/ dget k d = Some v.
+  Proof.
+    intros d k k' v v' H. destruct (string_dec k k') as [->|Hn].
+    - rewrite dget_dset_same in H. inversion H. now left.
+    - rewrite dget_dset_other in H by assumption. now right.
+  Qed.
+
+  Lemma dget_dset_mono : forall d k k' v v', dget k d = Some v -> exists v0, dget k (dset k' v' d) = Some v0.
+  Proof.
+    intros d k k' v v' H. destruct (string_dec k k') as [->|Hn].
+    - rewrite dget_dset_same. eauto.
+    - rewrite dget_dset_other by assumption. eauto.
+  Qed.
+
+  (* d.update(ws): what can be read afterwards was in d or is one of the written pairs *)
+  Lemma dget_dupdate : forall ws d k v, dget k (dupdate d ws) = Some v -> In (k, v) ws \/ dget k d = Some v.
+  Proof.
+    unfold dupdate. induction ws as [|[k' v'] ws IH]; simpl; intros d k v H; [now right|].
+    apply IH in H. destruct H as [H|H]; [left; now right|].
+    apply dget_dset in H. destruct H as [[-> ->]|H]; [left; now left|now right].
+  Qed.
+
+  Lemma dupdate_mono : forall ws d k v, dget k d = Some v -> exists v0, dget k (dupdate d ws) = Some v0.
+  Proof.
+    unfold dupdate. induction ws as [|[k' v'] ws IH]; simpl; intros d k v H; [eauto|].
+    destruct (dget_dset_mono d k k' v v' H) as [v0 H0]. eapply IH; eauto.
+  Qed.
+
+  Lemma dupdate_mem : forall ws d k v, In (k, v) ws -> exists v0, dget k (dupdate d ws) = Some v0.
+  Proof.
+    unfold dupdate. induction ws as [|[k' v'] ws IH]; simpl; intros d k v H; [contradiction|].
+    destruct H as [H|H].
+    - inversion H; subst. eapply (dupdate_mono ws). apply dget_dset_same.
+    - eapply IH; eauto.
+  Qed.
+End DictLemmas.
+
+Lemma dget_map_snd : forall {V W} (f : V -> W) (d : dict V) k,
+  dget k (map (fun kv => (fst kv, f (snd kv))) d) = option_map f (dget k d).
+Proof.
+  induction d as [|[k' v'] r IH]; simpl; intros k; [reflexivity|].
+  destruct (String.eqb k k'); auto.
+Qed.
+
+Lemma mget_In : forall t e b, mget e t = Some b -> exists e', In (e', b) t /\ mexp_eqb e e' = true.
+Proof.
+  induction t as [|[e' b'] r IH]; simpl; intros e b H; [discriminate|].
+  destruct (mexp_eqb e e') eqn:E.
+  - inversion H; subst. exists e'. split; [now left|assumption].
+  - destruct (IH _ _ H) as [e0 [H1 H2]]. exists e0. split; [now right|assumption].
+Qed.
+
+Lemma mexp_eqb_eq : forall a b, mexp_eqb a b = true -> a = b.
+Proof.
+  induction a; destruct b; simpl; intros H; try discriminate.
+  - apply andb_true_iff in H. destruct H as [H1 H2]. apply String.eqb_eq in H2.
+    destruct s, s0; simpl in H1; try discriminate; now subst.
+  - f_equal; auto.
+  - f_equal; auto.
+  - f_equal; auto.
+  - apply andb_true_iff in H. destruct H. f_equal; auto.
+Qed.
+
+(* ============================================================================================ *)
+(* Structure of the generated pieces                                                             *)
+(* ============================================================================================ *)
+Lemma bind_Ok : forall {X Y} (r : result X) (f : X -> result Y) y,
+  bind r f = Ok y -> exists x, r = Ok x /\ f x = Ok y.
+Proof. intros X Y [x|k|] f y H; simpl in H; try discriminate. eauto. Qed.
+
+Ltac bind_inv H :=
+  let x := fresh "x" in let H1 := fresh "E" in
+  apply bind_Ok in H; destruct H as [x [H1 H]].
+
+Definition la_rel (inv : label -> option bool) (suf : string) (kv kv' : string * label) : Prop :=
+  fst kv' = fst kv /\
+  exists b, inv (snd kv) = Some b /\ snd kv' = if b then snd kv else (snd kv ++ suf)%string.
+
+Lemma local_action_F2 : forall inv suf p p',
+  local_action inv suf p = Ok p' -> Forall2 (la_rel inv suf) p p'.
+Proof.
+  induction p as [|[s l] r IH]; simpl; intros p' H.
+  - inversion H. constructor.
+  - destruct (inv l) as [b|] eqn:E; [|discriminate]. bind_inv H. inversion H; subst.
+    constructor; [|auto]. split; [reflexivity|]. exists b. auto.
+Qed.
+
+Lemma F2_fst : forall {X Y} (R : string * X -> string * Y -> Prop) p p',
+  Forall2 R p p' -> (forall a b, R a b -> fst b = fst a) -> map fst p' = map fst p.
+Proof. induction 1; simpl; intros HR; [reflexivity|]. f_equal; auto. Qed.
+
+Definition bra_rel (symd : dict bool) (t : term) (st : sterm) : Prop :=
+  st_frac st = (-1 * fst (fst t))%Q /\ st_coef st = snd (fst t) /\ st_ket st = [] /\
+  local_action (fun l => dget l symd) "_T" (snd t) = Ok (st_bra st).
+
+Lemma ham_bra_terms_F2 : forall symd ts t2,
+  ham_bra_terms symd ts = Ok t2 -> Forall2 (bra_rel symd) ts t2.
+Proof.
+  induction ts as [|[[f c] p] r IH]; simpl; intros t2 H.
+  - inversion H. constructor.
+  - bind_inv H. bind_inv H. inversion H; subst. constructor; [|auto].
+    repeat split; assumption.
+Qed.
+
+Definition jump_rel (reald : dict bool) (t : term) (st : sterm) : Prop :=
+  st_frac st = fst (fst t) /\ st_coef st = (snd (fst t) ++ "*j")%string /\ st_ket st = snd t /\
+  local_action (fun l => dget l reald) "_conj" (snd t) = Ok (st_bra st).
+
+Lemma jump_terms_F2 : forall i reald js t3,
+  jump_terms i reald js = Ok t3 -> Forall2 (jump_rel reald) js t3.
+Proof.
+  induction js as [|[[f c] p] r IH]; simpl; intros t3 H.
+  - inversion H. constructor.
+  - bind_inv H. bind_inv H. bind_inv H. inversion H; subst. constructor; [|auto].
+    repeat split; assumption.
+Qed.
+
+Lemma transpose_writes_In : forall sym d tw,
+  transpose_writes d sym = Ok tw ->
+  forall k e, In (k, e) d -> exists b, sym e = Some b /\ (b = false -> In ((k ++ "_T")%string, MT e) tw).
+Proof.
+  unfold transpose_writes. induction d as [|[k0 e0] d IH]; simpl; intros tw H k e Hin; [contradiction|].
+  bind_inv H. destruct (sym e0) as [[|]|] eqn:E0; try discriminate; inversion H; subst.
+  - destruct Hin as [Hin|Hin].
+    + inversion Hin; subst. exists true. split; [assumption|discriminate].
+    + destruct (IH _ E k e Hin) as [b [H1 H2]]. exists b. auto.
+  - destruct Hin as [Hin|Hin].
+    + inversion Hin; subst. exists false. split; [assumption|]. intros _. now left.
+    + destruct (IH _ E k e Hin) as [b [H1 H2]]. exists b. split; [assumption|]. intros Hb. right. auto.
+Qed.
+
+Lemma In_dget_NoDup : forall {V} (d : dict V) k v, NoDup (map fst d) -> In (k, v) d -> dget k d = Some v.
+Proof.
+  induction d as [|[k' v'] r IH]; simpl; intros k v Hnd Hin; [contradiction|].
+  inversion Hnd; subst. destruct Hin as [Hin|Hin].
+  - inversion Hin; subst. now rewrite String.eqb_refl.
+  - destruct (String.eqb k k') eqn:E.
+    + apply String.eqb_eq in E. subst k'. exfalso. apply H1. apply in_map_iff. exists (k, v). auto.
+    + auto.
+Qed.
+
+(* ============================================================================================ *)
+(* The abstract algebra                                                                          *)
+(* ============================================================================================ *)
+Section Laws.
+  Variable A : alg.
+  Local Notation C := (aC A).
+  Local Notation M := (aM A).
+  Local Notation L := (aL A).
+  Local Notation "x +m y" := (madd A x y) (at level 50, left associativity).
+  Local Notation "x *m y" := (mmul A x y) (at level 40, left associativity).
+  Local Notation "-m x" := (mopp A x) (at level 35, right associativity).
+  Local Notation "a 'o' x" := (smul A a x) (at level 39, right associativity).
+  Local Notation "x +c y" := (cadd A x y) (at level 50, left associativity).
+  Local Notation "x *c y" := (cmul A x y) (at level 40, left associativity).
+  Local Notation "-c x" := (copp A x) (at level 35, right associativity).
+  Local Notation "0m" := (m0 A).
+  Local Notation "1m" := (m1 A).
+  Local Notation "0c" := (c0 A).
+  Local Notation "1c" := (c1 A).
+
+  (* scalars: a commutative ring with i and an image of Q *)
+  Hypothesis Cring : ring_theory 0c 1c (cadd A) (cmul A) (fun x y => x +c -c y) (copp A) eq.
+  Hypothesis qC_proper : forall p q : Q, Qeq p q -> qC A p = qC A q.
+  Hypothesis qC_add : forall p q, qC A (p + q)%Q = qC A p +c qC A q.
+  Hypothesis qC_mul : forall p q, qC A (p * q)%Q = qC A p *c qC A q.
+  Hypothesis qC_1 : qC A 1%Q = 1c.
+  (* operators: an associative unital algebra over the scalars *)
+  Hypothesis madd_assoc : forall x y z, x +m (y +m z) = (x +m y) +m z.
+  Hypothesis madd_comm : forall x y, x +m y = y +m x.
+  Hypothesis madd_0_l : forall x, 0m +m x = x.
+  Hypothesis madd_opp_r : forall x, x +m -m x = 0m.
+  Hypothesis mmul_assoc : forall x y z, x *m (y *m z) = (x *m y) *m z.
+  Hypothesis mmul_1_l : forall x, 1m *m x = x.
+  Hypothesis mmul_1_r : forall x, x *m 1m = x.
+  Hypothesis mmul_add_l : forall x y z, x *m (y +m z) = x *m y +m x *m z.
+  Hypothesis mmul_add_r : forall x y z, (x +m y) *m z = x *m z +m y *m z.
+  Hypothesis smul_add_r : forall a x y, a o (x +m y) = a o x +m a o y.
+  Hypothesis smul_add_l : forall a b x, (a +c b) o x = a o x +m b o x.
+  Hypothesis smul_smul : forall a b x, a o (b o x) = (a *c b) o x.
+  Hypothesis smul_1 : forall x, 1c o x = x.
+  Hypothesis smul_mul_l : forall a x y, (a o x) *m y = a o (x *m y).
+  Hypothesis smul_mul_r : forall a x y, x *m (a o y) = a o (x *m y).
+  Hypothesis mopp_smul : forall x, -m x = (-c 1c) o x.
+  (* transpose, entrywise conjugate, adjoint *)
+  Hypothesis mT_mul : forall x y, mT A (x *m y) = mT A y *m mT A x.
+  Hypothesis mT_1 : mT A 1m = 1m.
+  Hypothesis mT_invol : forall x, mT A (mT A x) = x.
+  Hypothesis mH_mul : forall x y, mH A (x *m y) = mH A y *m mH A x.
+  Hypothesis mH_1 : mH A 1m = 1m.
+  Hypothesis mH_invol : forall x, mH A (mH A x) = x.
+  Hypothesis mT_conj : forall x, mT A (mconj A x) = mH A x.
+  (* trace *)
+  Hypothesis tr_add : forall x y, tr A (x +m y) = tr A x +c tr A y.
+  Hypothesis tr_smul : forall a x, tr A (a o x) = a *c tr A x.
+  Hypothesis tr_cyc : forall x y, tr A (x *m y) = tr A (y *m x).
+  (* single-site operators inside the whole system *)
+  Hypothesis emb_mul : forall s a b, emb A s (lmul A a b) = emb A s a *m emb A s b.
+  Hypothesis emb_1 : forall s, emb A s (l1 A) = 1m.
+  Hypothesis emb_T : forall s a, emb A s (lT A a) = mT A (emb A s a).
+  Hypothesis emb_conj : forall s a, emb A s (lconj A a) = mconj A (emb A s a).
+  Hypothesis emb_H : forall s a, emb A s (lH A a) = mH A (emb A s a).
+  Hypothesis emb_comm : forall s t a b, s <> t -> emb A s a *m emb A t b = emb A t b *m emb A s a.
+
+  Add Ring CR : Cring.
+
+  (* ---- derived facts -------------------------------------------------------------------- *)
+  Lemma madd_0_r : forall x, x +m 0m = x.
+  Proof. intros. rewrite madd_comm. apply madd_0_l. Qed.
+
+  Lemma madd_cancel_idem : forall x, x +m x = x -> x = 0m.
+  Proof.
+    intros x H. transitivity ((x +m x) +m -m x).
+    - rewrite <- madd_assoc, madd_opp_r, madd_0_r. reflexivity.
+    - rewrite H. apply madd_opp_r.
+  Qed.
+
+  Lemma smul_0_r : forall a, a o 0m = 0m.
+  Proof. intros. apply madd_cancel_idem. rewrite <- smul_add_r. now rewrite madd_0_l. Qed.
+
+  Lemma mmul_0_l : forall x, 0m *m x = 0m.
+  Proof. intros. apply madd_cancel_idem. rewrite <- mmul_add_r. now rewrite madd_0_l. Qed.
+
+  Lemma mmul_0_r : forall x, x *m 0m = 0m.
+  Proof. intros. apply madd_cancel_idem. rewrite <- mmul_add_l. now rewrite madd_0_l. Qed.
+
+  Lemma qC_opp : forall q, qC A (- q)%Q = -c qC A q.
+  Proof.
+    intros q. assert (H : qC A (- q)%Q +c qC A q = 0c +c 0c).
+    { rewrite <- qC_add. rewrite (qC_proper (- q + q)%Q (0 + 0)%Q) by ring. rewrite qC_add.
+      assert (Z : qC A 0%Q = 0c).
+      { assert (Z2 : qC A 0%Q +c qC A 0%Q = qC A 0%Q) by (rewrite <- qC_add; apply qC_proper; ring).
+        transitivity ((qC A 0%Q +c qC A 0%Q) +c -c qC A 0%Q); [ring|rewrite Z2; ring]. }
+      now rewrite Z. }
+    transitivity ((qC A (- q)%Q +c qC A q) +c -c qC A q); [ring|rewrite H; ring].
+  Qed.
+
+  Lemma qC_half2 : qC A (1 # 2) +c qC A (1 # 2) = 1c.
+  Proof. rewrite <- qC_add. rewrite <- qC_1. apply qC_proper. reflexivity. Qed.
+
+  (* sums *)
+  Local Notation msum := (msum A).
+
+  Lemma msum_app : forall xs ys, msum (xs ++ ys) = msum xs +m msum ys.
+  Proof.
+    induction xs; simpl; intros; [now rewrite madd_0_l|]. rewrite IHxs. apply madd_assoc.
+  Qed.
+
+  Lemma msum_map_add : forall {T} (f g : T -> M) l,
+    msum (map (fun t => f t +m g t) l) = msum (map f l) +m msum (map g l).
+  Proof.
+    induction l; simpl; [now rewrite madd_0_l|]. rewrite IHl.
+    rewrite !madd_assoc. f_equal. rewrite <- !madd_assoc. f_equal. apply madd_comm.
+  Qed.
+
+  Lemma msum_mul_r : forall xs r, msum xs *m r = msum (map (fun x => x *m r) xs).
+  Proof. induction xs; simpl; intros; [apply mmul_0_l|]. now rewrite mmul_add_r, IHxs. Qed.
+
+  Lemma msum_mul_l : forall xs r, r *m msum xs = msum (map (fun x => r *m x) xs).
+  Proof. induction xs; simpl; intros; [apply mmul_0_r|]. now rewrite mmul_add_l, IHxs. Qed.
+
+  Lemma msum_smul : forall a xs, a o msum xs = msum (map (fun x => a o x) xs).
+  Proof. induction xs; simpl; [apply smul_0_r|]. now rewrite smul_add_r, IHxs. Qed.
+
+  Lemma msum_ext : forall {T} (f g : T -> M) l, (forall t, In t l -> f t = g t) -> msum (map f l) = msum (map g l).
+  Proof.
+    induction l; simpl; intros H; [reflexivity|]. rewrite H by now left. f_equal. apply IHl. intros; apply H; now right.
+  Qed.
+
+  (* products of pairwise commuting factors *)
+  Definition prodM (xs : list M) : M := fold_right (mmul A) 1m xs.
+  Definition comm (x y : M) : Prop := x *m y = y *m x.
+
+  Lemma prodM_app : forall xs ys, prodM (xs ++ ys) = prodM xs *m prodM ys.
+  Proof.
+    induction xs; simpl; intros; [now rewrite mmul_1_l|]. rewrite IHxs. apply mmul_assoc.
+  Qed.
+
+  Lemma comm_prod : forall z xs, Forall (comm z) xs -> comm z (prodM xs).
+  Proof.
+    unfold comm. induction 1; simpl; [now rewrite mmul_1_l, mmul_1_r|].
+    rewrite mmul_assoc, H, <- mmul_assoc, IHForall. apply mmul_assoc.
+  Qed.
+
+  Lemma prodM_rev : forall xs, ForallOrdPairs comm xs -> prodM (rev xs) = prodM xs.
+  Proof.
+    induction 1; simpl; [reflexivity|].
+    rewrite prodM_app, IHForallOrdPairs. simpl. rewrite mmul_1_r.
+    symmetry. apply comm_prod. assumption.
+  Qed.
+
+  Lemma mT_prod : forall xs, mT A (prodM xs) = prodM (rev (map (mT A) xs)).
+  Proof.
+    induction xs; simpl; [apply mT_1|]. rewrite mT_mul, IHxs, prodM_app. simpl. now rewrite mmul_1_r.
+  Qed.
+
+  Lemma mH_prod : forall xs, mH A (prodM xs) = prodM (rev (map (mH A) xs)).
+  Proof.
+    induction xs; simpl; [apply mH_1|]. rewrite mH_mul, IHxs, prodM_app. simpl. now rewrite mmul_1_r.
+  Qed.
+
+  (* prod (x_i y_i) = prod x_i * prod y_i when every y_i commutes with the later x_j *)
+  Lemma prodM_zip : forall ps : list (M * M),
+    ForallOrdPairs (fun p q => comm (snd p) (fst q)) ps ->
+    prodM (map (fun p => fst p *m snd p) ps) = prodM (map fst ps) *m prodM (map snd ps).
+  Proof.
+    induction 1 as [|[x y] ps Hx Hps IH]; simpl; [now rewrite mmul_1_l|].
+    rewrite IH. rewrite <- !mmul_assoc. f_equal. rewrite !mmul_assoc. f_equal.
+    apply comm_prod. apply Forall_map. assumption.
+  Qed.
+
+  (* ---- tensor products as operators -------------------------------------------------------- *)
+  Local Notation tpval := (tpval A).
+  Definition factors (vl : label -> L) (t : tp) : list M :=
+    map (fun kv => emb A (fst kv) (vl (snd kv))) t.
+
+  Lemma tpval_prod : forall vl t, tpval vl t = prodM (factors vl t).
+  Proof. induction t; simpl; [reflexivity|]. now rewrite IHt. Qed.
+
+  Lemma tpval_ext : forall v v' t, (forall s l, In (s, l) t -> v l = v' l) -> tpval v t = tpval v' t.
+  Proof.
+    induction t as [|[s l] t IH]; simpl; intros H; [reflexivity|].
+    rewrite (H s l) by now left. f_equal. apply IH. intros; eapply H; right; eauto.
+  Qed.
+
+  Lemma FOP_map : forall {X Y} (R : Y -> Y -> Prop) (f : X -> Y) l,
+    ForallOrdPairs (fun a b => R (f a) (f b)) l -> ForallOrdPairs R (map f l).
+  Proof.
+    induction 1; simpl; constructor; auto. apply Forall_map. assumption.
+  Qed.
+
+  Lemma FOP_impl : forall {X} (R R' : X -> X -> Prop) l,
+    (forall a b, R a b -> R' a b) -> ForallOrdPairs R l -> ForallOrdPairs R' l.
+  Proof.
+    intros X R R' l H. induction 1 as [|a l Ha Hl IH]; constructor; [|exact IH].
+    eapply Forall_impl; [|exact Ha]. intros b. apply H.
+  Qed.
+
+  Lemma NoDup_FOP : forall {X} (t : list (string * X)),
+    NoDup (map fst t) -> ForallOrdPairs (fun a b => fst a <> fst b) t.
+  Proof.
+    induction t as [|[s x] t IH]; simpl; intros H; constructor.
+    - inversion H; subst. apply Forall_forall. intros [s' x'] Hin. simpl. intros ->.
+      apply H2. apply in_map_iff. exists (s', x'). auto.
+    - apply IH. now inversion H.
+  Qed.
+
+  (* factors over distinct sites commute, whatever the local operators are *)
+  Lemma sites_comm : forall {X} (f g : string * X -> M) (t : list (string * X)),
+    NoDup (map fst t) ->
+    (forall a b, fst a <> fst b -> comm (f a) (g b)) ->
+    ForallOrdPairs (fun a b => comm (f a) (g b)) t.
+  Proof.
+    intros X f g t Hnd H. eapply FOP_impl; [|apply NoDup_FOP; eassumption]. auto.
+  Qed.
+
+  (* the bra copy of a transposed tensor product *)
+  Lemma tpval_T : forall (v v' : label -> L) (p p' : tp),
+    NoDup (map fst p) ->
+    Forall2 (fun kv kv' => fst kv' = fst kv /\ v' (snd kv') = lT A (v (snd kv))) p p' ->
+    mT A (tpval v' p') = tpval v p.
+  Proof.
+    intros v v' p p' Hnd HF.
+    assert (E : factors v' p' = map (mT A) (factors v p)).
+    { clear Hnd. induction HF as [|[s l] [s' l'] p p' [H1 H2] HF IH]; simpl in *; [reflexivity|].
+      subst s'. rewrite H2, emb_T, IH. reflexivity. }
+    rewrite !tpval_prod, E, mT_prod, map_map.
+    rewrite (map_ext _ (fun x => x)) by (intros; apply mT_invol). rewrite map_id.
+    apply prodM_rev. unfold factors. apply FOP_map.
+    apply sites_comm; [assumption|]. intros a b Hab. apply emb_comm. assumption.
+  Qed.
+
+  (* the bra copy of a conjugated tensor product *)
+  Lemma tpval_conj_T : forall (v v' : label -> L) (p p' : tp),
+    Forall2 (fun kv kv' => fst kv' = fst kv /\ v' (snd kv') = lconj A (v (snd kv))) p p' ->
+    mT A (tpval v' p') = mH A (tpval v p).
+  Proof.
+    intros v v' p p' HF.
+    assert (E : factors v' p' = map (mconj A) (factors v p)).
+    { induction HF as [|[s l] [s' l'] p p' [H1 H2] HF IH]; simpl in *; [reflexivity|].
+      subst s'. rewrite H2, emb_conj, IH. reflexivity. }
+    rewrite !tpval_prod, E, mT_prod, mH_prod, !map_map.
+    f_equal. f_equal. apply map_ext. intros. apply mT_conj.
+  Qed.
+
+  (* L^dagger L of a tensor product, site by site *)
+  Lemma tpval_LdL : forall (v v' : label -> L) (p p' : tp),
+    NoDup (map fst p) ->
+    Forall2 (fun kv kv' => fst kv' = fst kv /\
+               emb A (fst kv) (v' (snd kv')) = mH A (emb A (fst kv) (v (snd kv))) *m emb A (fst kv) (v (snd kv))) p p' ->
+    tpval v' p' = mH A (tpval v p) *m tpval v p.
+  Proof.
+    intros v v' p p' Hnd HF.
+    set (F := fun kv : string * label => emb A (fst kv) (v (snd kv))).
+    assert (E : factors v' p' = map (fun pr => fst pr *m snd pr) (map (fun kv => (mH A (F kv), F kv)) p)).
+    { clear Hnd. induction HF as [|[s l] [s' l'] p p' [H1 H2] HF IH]; simpl in *; [reflexivity|].
+      subst s'. rewrite H2, IH. reflexivity. }
+    rewrite !tpval_prod, E, prodM_zip.
+    - rewrite !map_map. simpl. f_equal.
+      change (factors v p) with (map F p).
+      rewrite mH_prod, map_map. symmetry. apply prodM_rev. apply FOP_map.
+      apply sites_comm; [assumption|]. intros a b Hab. unfold F, comm.
+      rewrite <- !emb_H. apply emb_comm. assumption.
+    - apply FOP_map. simpl. apply sites_comm; [assumption|]. intros a b Hab. unfold F, comm.
+      rewrite <- !emb_H. apply emb_comm. assumption.
+  Qed.
+
+End Laws.
